@@ -37,3 +37,67 @@ Theorem C13_writethrough_delivers : forall f script n s delivered st s',
   exists rest, script_rows script = delivered ++ rest /\ (st = WEof -> rest = []).
 Proof. exact wt_run_delivers. Qed.
 Print Assumptions C13_writethrough_delivers.
+
+From Coq Require Import ZArith String.
+Require Import BS.Gen.C13_params BS.C13.Compile BS.C13.CompileProofs.
+
+(* the generated switches select exactly the write-through reader of C13/Model.v *)
+Theorem C13_gen_switches_select_model : forall f script n s,
+  wt_run_sw gen_sw f s script n = wt_run f s script n.
+Proof. intros. apply wt_run_sw_gen. Qed.
+
+(* SKIPS RECOMPUTATION *)
+Theorem C13_cached_shard_skips_upstream : forall fsem up_rows part P cs0 t,
+  p_dep P = DNarrow ->
+  (In (EUp t) (snd (run fsem up_rows part P cs0)) <-> t < p_n P /\ any_marked cs0 (p_n P) (p_ops P) t = false).
+Proof. exact cached_shard_skips_upstream. Qed.
+Print Assumptions C13_cached_shard_skips_upstream.
+
+Theorem C13_cachepartial_runs_exactly_uncached : forall fsem up_rows part P cs0 inner outer k cid,
+  p_ops P = inner ++ OpCache k cid :: outer -> cids inner = [] -> cids outer = [] ->
+  forall t, k = KCachePartial -> p_dep P = DNarrow ->
+  (In (EUp t) (snd (run fsem up_rows part P cs0)) <-> t < p_n P /\ cs0 cid t = None).
+Proof. exact cachepartial_runs_exactly_uncached. Qed.
+
+Theorem C13_cache_runs_all_or_none : forall fsem up_rows part P cs0 inner outer k cid,
+  p_ops P = inner ++ OpCache k cid :: outer -> cids inner = [] -> cids outer = [] ->
+  k = KCache -> p_dep P = DNarrow ->
+  ((forall t, t < p_n P -> cs0 cid t <> None) /\ (forall t, ~ In (EUp t) (snd (run fsem up_rows part P cs0))))
+  \/ ((exists t, t < p_n P /\ cs0 cid t = None) /\ (forall t, t < p_n P -> In (EUp t) (snd (run fsem up_rows part P cs0)))).
+Proof. exact cache_runs_all_or_none. Qed.
+
+Theorem C13_cached_shard_skips_functions : forall fsem up_rows part P cs0 s A k cid B id,
+  s < p_n P -> p_ops P = A ++ OpCache k cid :: B -> marked cs0 (p_n P) k cid s = true ->
+  any_marked cs0 (p_n P) B s = false ->
+  (In (EFun id s) (snd (run fsem up_rows part P cs0)) <-> In (OpFun id) B).
+Proof. exact cached_shard_skips_functions. Qed.
+
+Theorem C13_cached_shards_skip_upstream_shuffle : forall fsem up_rows part P cs0 t,
+  p_dep P = DShuffle ->
+  (In (EUp t) (snd (run fsem up_rows part P cs0))
+   <-> t < p_nup P /\ exists s, s < p_n P /\ any_marked cs0 (p_n P) (p_ops P) s = false).
+Proof. exact cached_shards_skip_upstream_shuffle. Qed.
+
+(* TRANSPARENT *)
+Theorem C13_cache_transparent : forall fsem up_rows part P cs0,
+  consistent fsem up_rows part P cs0 ->
+  forall s, s < p_n P ->
+  nth s (fst (fst (run fsem up_rows part P cs0))) [] = ref_shard fsem up_rows part P s.
+Proof. exact cache_transparent. Qed.
+Print Assumptions C13_cache_transparent.
+
+(* COMPLETE FILES AFTER A RUN *)
+Theorem C13_cache_files_after_run : forall fsem up_rows part P cs0,
+  consistent fsem up_rows part P cs0 ->
+  forall inner k cid outer s,
+  NoDup (cids (p_ops P)) -> p_ops P = inner ++ OpCache k cid :: outer -> s < p_n P ->
+  any_marked cs0 (p_n P) outer s = false ->
+  snd (fst (run fsem up_rows part P cs0)) cid s = Some (ref_ops fsem inner s (dep_input up_rows part P s)).
+Proof. exact cache_files_after_run. Qed.
+Print Assumptions C13_cache_files_after_run.
+
+(* with faults and early stops: absent or complete, for the reader selected by the generated switches *)
+Theorem C13_write_stage_complete_or_absent : forall f r n delivered st w,
+  wt_run_sw gen_sw f (wt_init f None) (batches r) n = (delivered, st, w) ->
+  wvisible w = None \/ (wvisible w = Some r /\ st = WEof).
+Proof. exact write_stage_complete_or_absent. Qed.
